@@ -36,7 +36,7 @@ Theorem c19_step_sound before op signer params after decs :
   c19_step before (Step op signer 0 params after decs) = [] -> 0 <= signer ->
   ~ In op privileged_ops ->
   forall acct comp role, In (acct, comp, role) decs ->
-    role = "signer"%string \/ exception_ok op role comp = true.
+    role = "signer"%string \/ exception_ok op params role comp = true.
 Proof.
   intros H Hs Hnp acct comp role Hin. unfold c19_step in H. cbn [st_op st_params st_result st_signer st_decreased] in H.
   assert (Hp : str_in op privileged_ops = false).
@@ -68,4 +68,20 @@ Lemma remove_selector_rejected sels sel stake mn nsel cap :
 Proof.
   intros H. unfold remove_selector. destruct ((stake <? mn) && (cap <? nsel)) eqn:E; [|reflexivity].
   apply andb_prop in E. destruct E as [E1 E2]. apply Z.ltb_lt in E1, E2. lia.
+Qed.
+
+(* the first exception applies to funded disputes only: when a dispute message reduced the stake of the disputed
+   reporter or of one of its backers, the dispute was fully funded after that message *)
+Lemma dispute_exception_needs_funding op params role comp :
+  exception_ok op params role comp = true ->
+  str_in role ["disputed_reporter"; "backer_of_disputed"]%string = true -> funded_after params = true.
+Proof.
+  unfold exception_ok. intros H Hr.
+  apply orb_prop in H. destruct H as [H|H].
+  - apply orb_prop in H. destruct H as [H|H].
+    + apply andb_prop in H. destruct H as [H _]. apply andb_prop in H. destruct H as [H _]. apply andb_prop in H. destruct H as [_ H]. exact H.
+    + exfalso. apply andb_prop in H. destruct H as [H _]. apply andb_prop in H. destruct H as [_ H]. apply String.eqb_eq in H. subst role.
+      cbn in Hr. discriminate.
+  - exfalso. apply andb_prop in H. destruct H as [H _]. apply andb_prop in H. destruct H as [_ H]. apply String.eqb_eq in H. subst role.
+    cbn in Hr. discriminate.
 Qed.
